@@ -1,11 +1,61 @@
-import PyresampleModel.Model.Core
+import PyresampleModel.Model.Compact
 
 /-
-  C04 — model (stub: not built yet).
+  C04 — `_resample_with_weights` / `_calculate_uncertainty` for one target location and one
+  channel.  A neighbour slot is (contributes?, weight w(d), value); the weights are produced by the
+  caller's weight function and enter the model as data.
 -/
 namespace PyresampleModel.C04
 
+structure Slot where
+  live : Bool      -- `index != n_valid` (a real neighbour within the radius)
+  w    : Rat       -- `weight_func(distance)`; for dead slots the code evaluates it at distance 1
+  x    : Rat       -- `new_data[index]` (for dead slots: `new_data[0]`)
+deriving Repr, DecidableEq
+
+/-- the accumulation loop: `weights_tmp = inv_index_mask * weight`, `result += weights_tmp * x`, `norm += weights_tmp` -/
+def accum (slots : List Slot) : Rat × Rat :=
+  slots.foldl (fun (acc : Rat × Rat) s =>
+    let wt := if s.live then s.w else 0
+    (acc.1 + wt * s.x, acc.2 + wt)) (0, 0)
+
+/-- `result[norm > 0] /= norm`, else fill (`none`) -/
+def weighted (slots : List Slot) : Option Rat :=
+  let (res, norm) := accum slots
+  if norm > 0 then some (res / norm) else none
+
+/-- `count += inv_index_mask` -/
+def count (slots : List Slot) : Nat := (slots.filter (·.live)).length
+
+/-- `_calculate_uncertainty` before the square root: `(v1 / (v1**2 - v2)) * Σ w (x - μ)²`, NaN (`none`) unless count > 1 -/
+def variance (slots : List Slot) : Option Rat :=
+  match weighted slots with
+  | none => none
+  | some mu =>
+    let v1 := (accum slots).2
+    let v2 := slots.foldl (fun acc s => acc + (if s.live then s.w else 0) ^ 2) 0
+    let ss := slots.foldl (fun acc s =>
+      let wt := if s.live then s.w else 0
+      let v := if s.live then s.x else 0
+      acc + wt * (v - mu) ^ 2) 0
+    if count slots > 1 then some (v1 / (v1 ^ 2 - v2) * ss) else none
+
+/-! ### driver -/
+open Wire
+
+def showOpt : Option Rat → String
+  | none => "nan"
+  | some q => showRat q
+
 def handle : List String → Option String
+  | "wmean" :: rest => do
+    -- wmean <k> live… <k> weight… <k> value…  → result count variance
+    let (ls, tl) ← takeList bool? rest
+    let (ws, tl) ← takeList rat? tl
+    let (xs, tl) ← takeList rat? tl
+    if tl ≠ [] ∨ ls.length ≠ ws.length ∨ ws.length ≠ xs.length then none else
+    let slots := (ls.zip (ws.zip xs)).map (fun p => Slot.mk p.1 p.2.1 p.2.2)
+    some (showOpt (weighted slots) ++ " " ++ toString (count slots) ++ " " ++ showOpt (variance slots))
   | _ => none
 
 end PyresampleModel.C04
